@@ -5,7 +5,7 @@ use proptest::prelude::*;
 
 use crate::interp::ops::{Fault, OpKind, Outcome};
 use crate::interp::world::{RingCfg, Start};
-use crate::interp::{CancelChoice, KAct, Step};
+use crate::interp::{CancelChoice, KAct, Step, Teardown};
 
 pub fn start() -> impl Strategy<Value = Start> {
     prop_oneof![
@@ -95,4 +95,9 @@ pub fn step(kind: BoxedStrategy<OpKind>, max_faults: usize, drops: u32) -> impl 
         5 => kact().prop_map(Step::Kernel),
         5 => (proptest::collection::vec(kact(), 0..5), any::<bool>()).prop_map(|(inline, block)| Step::RingPoll { inline, block }),
     ]
+}
+
+pub fn teardown() -> impl Strategy<Value = Teardown> {
+    (proptest::collection::vec(any::<u16>(), 1..24), proptest::collection::vec(proptest::bool::weighted(0.2), 1..8), 0u8..3, proptest::option::weighted(0.5, (0u8..=3, 0u8..4)), any::<bool>())
+        .prop_map(|(priorities, on_thread, extra_sq, pool, wake_after)| Teardown { priorities, on_thread, extra_sq, pool, wake_after })
 }
